@@ -20,10 +20,19 @@ Definition npm_versions : list (string * list Z * list string) :=
     ("1.0.0", [1;0;0], []); ("1.2.3", [1;2;3], []); ("1.2.4", [1;2;4], []); ("0.0.0-0", [0;0;0], ["0"]);
     ("0.0.0-rc.1", [0;0;0], ["rc"; "1"]); ("1.5.0", [1;5;0], []); ("0.x", [0;-1], []); ("0.0", [0;0], []);
     ("0.0.0", [0;0;0], []); ("1.9.9", [1;9;9], []); ("0.5.0", [0;5;0], []); ("1.4.0", [1;4;0], []);
-    ("2.5.0", [2;5;0], []); ("3", [3], []); ("0.1.9", [0;1;9], []) ]%string.
+    ("2.5.0", [2;5;0], []); ("3", [3], []); ("0.1.9", [0;1;9], []);
+    ("1.∞.∞", [1; 9223372036854775807; 9223372036854775807], []) ]%string.
 
 Definition go_versions : list (string * list Z * list string) :=
   [ ("v1.10.9-alpha.1", [1;10;9], ["alpha"; "1"]); ("v2.0.0-alpha.1", [2;0;0], ["alpha"; "1"]); ("v2.0.0", [2;0;0], []) ]%string.
+
+Definition cargo_versions : list (string * list Z * list string) :=
+  [ ("10.10.9223372036854775806", [10;10;9223372036854775806], []); ("10.10.1", [10;10;1], []) ]%string.
+
+(* NuGet drops a fourth component that is 0 *)
+Definition nuget_versions : list (string * list Z * list string) :=
+  [ ("1.2.3.*", [1;2;3;-1], []); ("1.2.3.0", [1;2;3], []); ("1.2.3", [1;2;3], []); ("1.2.3.1", [1;2;3;1], []);
+    ("∞.∞.∞.∞", [9223372036854775807; 9223372036854775807; 9223372036854775807; 9223372036854775807], []) ]%string.
 
 Fixpoint lookup (sys : system) (tbl : list (string * list Z * list string)) (s : bytes) : parse_out :=
   match tbl with
@@ -37,6 +46,8 @@ Definition pv_w (sys : system) (allow_inf : bool) (s : bytes) : res parse_out :=
   match sys with
   | SNPM => Ok (lookup SNPM npm_versions s)
   | SGo => Ok (lookup SGo go_versions s)
+  | SCargo => Ok (lookup SCargo cargo_versions s)
+  | SNuGet => Ok (lookup SNuGet nuget_versions s)
   | _ => Ok {| po_v := None; po_err := true |}
   end.
 
